@@ -67,6 +67,10 @@ def generate(seed, tier, idx=0):
     shape = rng.random()
     w = {"add": 5, "readd": 1, "remove": 2, "remove_absent": 0.5, "pop": 2,
          "peek": 1, "contains": 1, "size": 0.5, "is_empty": 0.5, "clear": 0.15}
+    if rng.random() < 0.03:
+        # elsewhere in the process a simulator is initialised (and cleaned up) while
+        # events of this list are alive: ids must keep following creation order
+        w["sim_init"] = 0.4
     if shape < 0.3:
         w.update(remove=4, pop=3)       # "remove interior, then add, then pop"
     elif shape < 0.4:
@@ -100,6 +104,22 @@ def generate(seed, tier, idx=0):
         else:
             ops.append([op])
     return {"ttype": ttype, "ops": ops}
+
+
+def _other_simulator_initialized():
+    from pydsol.core.simulator import DEVSSimulatorFloat
+    from pydsol.core.model import DSOLModel
+    from pydsol.core.experiment import Replication
+
+    class _M(DSOLModel):
+        def construct_model(self):
+            self.simulator.schedule_event_rel(1.0, self, "h")
+
+        def h(self):
+            pass
+    sim = DEVSSimulatorFloat("other")
+    sim.initialize(_M(sim), Replication("r", 0, 0.0, 0.0, 10.0))
+    sim.cleanup()
 
 
 def make_time(t):
@@ -247,6 +267,9 @@ def run_history(case):
             pass
         elif name == "is_empty":
             pass
+        elif name == "sim_init":
+            _other_simulator_initialized()
+            info["sim_inits"] = info.get("sim_inits", 0) + 1
         elif name == "clear":
             el.clear()
             gone.extend(ref)
